@@ -1526,6 +1526,14 @@ func (h *isoHist) act(cid int, kind string) {
 	h.clients[cid] = l
 	h.t.Op(h.state(), "iact", cid, kind, h.desc.AllowRecording)
 	h.check(before, cid, kind)
+	// a revoked permission is gone, however often it was listed
+	revoked := map[string][]string{"unop": {"op", "record"}, "unpresent": {"present"}, "shutup": {"message"}}[kind]
+	for _, p := range revoked {
+		h.t.Checked("C08.revoked_gone")
+		if contains(l, p) {
+			h.t.Fail("C08", "revoked_gone", fmt.Sprintf("%s of client %d: the list still contains %q: %v", kind, cid, p, l))
+		}
+	}
 }
 
 func (h *isoHist) leave(cid int) {
@@ -1578,6 +1586,31 @@ func isoCorpus(t *tr.Trace) {
 	h.login(1, d.users[0])
 }
 
+// isoCorpusDup: a raw array that lists permissions twice; revoking removes
+// every occurrence (b21f80e), and the description's own array stays intact.
+func isoCorpusDup(t *tr.Trace) {
+	pw := pwRec{form: "bare", Key: sp("p"), clear: "p"}
+	d := descRec{usersForm: "map", users: []userRec{
+		{name: "u0", pw: pw, perm: permRec{form: "raw", raw: []string{"present", "present", "message", "message"}}},
+		{name: "u1", pw: pw, perm: permRec{form: "raw", raw: []string{"op", "record", "op", "message", "record", "op"}}},
+	}}
+	h := newIsoHist(t, "iso-corpus", d)
+	h.login(1, d.users[0])
+	h.login(2, d.users[0])
+	h.act(1, "unpresent")
+	h.act(1, "shutup")
+	if len(h.clients[1]) != 0 {
+		t.Fail("C08", "revoked_gone", fmt.Sprintf("[present present message message] after unpresent and shutup: %v", h.clients[1]))
+	}
+	h.login(3, d.users[1])
+	h.login(4, d.users[1])
+	h.act(3, "unop")
+	h.act(3, "unshutup")
+	h.act(4, "shutup")
+	h.act(2, "unpresent")
+	h.login(1, d.users[0])
+}
+
 func isoCase(t *tr.Trace, r *tr.Rand) {
 	d := isoDesc(r, r.Range(1, 4))
 	h := newIsoHist(t, "iso", d)
@@ -1621,6 +1654,7 @@ func runAuth(t *tr.Trace, r *tr.Rand, n int) {
 
 	corpus(t, r)
 	isoCorpus(t)
+	isoCorpusDup(t)
 	collisionProbe(t, r)
 	longStream(t, r)
 	for i := 0; i < n; i++ {
